@@ -65,7 +65,7 @@ func NewCheck(id, tier, level string) *Check {
 	if s := os.Getenv("VERIF_SEED"); s != "" {
 		c.Seed, _ = strconv.Atoi(s)
 	}
-	budget := 100 * time.Second
+	budget := 180 * time.Second
 	if tier == "thorough" {
 		budget = 25 * time.Minute
 	}
